@@ -423,7 +423,7 @@ func (c *reqCase) settings() []erpc.MessageSetting {
 	return st
 }
 
-const waitLong = 5 * time.Second
+const waitLong = 15 * time.Second
 
 // doRequest sends the case on sess and fills the caller part of the observation.
 func doRequest(sess erpc.Session, c *reqCase, o *obs) {
@@ -445,7 +445,7 @@ func doRequest(sess erpc.Session, c *reqCase, o *obs) {
 			o.hasReply = true
 			m.VisitAll(func(k, v []byte) { o.meta = append(o.meta, [2]string{string(k), string(v)}) })
 		}
-	case <-time.After(4 * waitLong):
+	case <-time.After(2 * waitLong):
 		o.timeout = true
 		o.stat = VS("timeout")
 	}
@@ -508,12 +508,16 @@ func (w *world) dial(p erpc.Peer, addr string) erpc.Session {
 }
 
 func (w *world) newForward() {
+	if w.fsess != nil {
+		delete(names.m, w.fsess.LocalAddr().String())
+	}
 	w.fsess = w.dial(w.fwPeer, w.beLis.Addr)
 	names.m[w.fsess.LocalAddr().String()] = "PROXY"
 	setFwd(w.fsess)
 }
 
 func (w *world) newCaller() {
+	delete(names.m, w.csess.LocalAddr().String())
 	w.csess = w.dial(w.clPeer, w.pxLis.Addr)
 	names.m[w.csess.LocalAddr().String()] = "CALLER"
 }
@@ -537,13 +541,25 @@ func (w *world) proxySessionFor(caller erpc.Session) erpc.Session {
 
 // waitInvoked waits until the handler-invocation count reaches what the arrivals predict.
 func waitInvoked(c *reqCase) {
-	WaitUntil(2*time.Second, func() bool {
+	WaitUntil(waitLong, func() bool {
 		a, i, _ := be.snap()
 		if !c.expInv {
 			return true
 		}
 		return i >= a
 	})
+}
+
+// normNow resolves addresses to their role names while the sessions that own them are still
+// registered (a port is reused as soon as its session is gone).
+func (o *obs) normNow() {
+	if o.seen != nil {
+		s := *o.seen
+		s.realIP = names.norm(s.realIP)
+		s.meta = normMeta(s.meta)
+		o.seen = &s
+	}
+	o.meta = normMeta(o.meta)
 }
 
 func (w *world) runDirect(c *reqCase) *obs {
@@ -557,6 +573,7 @@ func (w *world) runDirect(c *reqCase) *obs {
 	}
 	waitInvoked(c)
 	o.arrived, o.invoked, o.seen = be.snap()
+	o.normNow()
 	return o
 }
 
@@ -604,6 +621,7 @@ func (w *world) runProxied(c *reqCase) *obs {
 	}
 	caller := w.csess
 	if c.push {
+		w.csess.Close()
 		w.newCaller()
 		caller = w.csess
 	}
@@ -637,8 +655,6 @@ func (w *world) runProxied(c *reqCase) *obs {
 		} else {
 			o.timeout = true
 		}
-		caller.Close()
-		w.newCaller()
 	}
 	// everything the proxy forwarded has been written; a barrier call on the forward session
 	// makes the backend's arrival counter final.
@@ -648,17 +664,23 @@ func (w *world) runProxied(c *reqCase) *obs {
 		}
 		waitInvoked(c)
 	} else if c.fail == "during" {
-		WaitUntil(2*time.Second, func() bool { _, i, _ := be.snap(); return i >= 1 })
+		WaitUntil(waitLong, func() bool { _, i, _ := be.snap(); return i >= 1 })
 	}
 	o.arrived, o.invoked, o.seen = be.snap()
+	o.normNow()
 	fwdRec.mu.Lock()
 	o.fwdCalls, o.fwdStat = fwdRec.calls, fwdRec.statText
 	o.fwdIsConn = fwdRec.stat != nil && fwdRec.stat == erpc.VerifSentinels()["statConnClosed"]
 	o.labelIP, o.labelMeth = names.norm(fwdRec.label.RealIP), fwdRec.label.ServiceMethod
 	fwdRec.mu.Unlock()
+	if c.push {
+		caller.Close()
+		w.newCaller()
+	}
 	// restore a healthy forward path for the next case
 	if c.fail != "none" {
 		if c.fail == "during" || c.fail == "closed-remote" {
+			delete(names.m, w.dsess.LocalAddr().String())
 			w.dsess = w.dial(w.clPeer, w.beLis.Addr) // KillConns cut the direct session too
 			names.m[w.dsess.LocalAddr().String()] = "CALLER"
 		}
